@@ -1,6 +1,8 @@
 from checks.lfht_common import *  # noqa
+from checks import cross
 
 PROP = "C07"
+BUILDS = BUILDS + cross.gp_builds()   # cross-property core jobs (checks/cross.py)
 RULE = ("every schedule (preemption / store-delay budget) of k competing del / replace / add_replace calls on the same node with "
         "concurrent adds, lookups, traversals and resizes in the same bucket; the winner frees the node one (adversarially early) "
         "specification grace period after its call returned; shrinks free bucket arrays (order, chunk, mmap and a recording custom "
@@ -56,10 +58,21 @@ def jobs(tier):
                       final_destroy=1, settle_end=0))
     J.append(conc("0,1,0,0" if q else "1,1,0,0", flags=3, hmap=1, count_commit_order=0, init=8, ninit=3, init_keys=0x210, prog0=prog((K_DEL, 0)),
                   final_destroy=1, settle_end=0))
+    # sequences of explicit resizes (grow, shrink below, grow again: a level released by a shrink must not be reused) per allocator
+    for mm in (0, 1, 2):
+        J.append(seq(len=3 if q else 4, keys=1, hmap=1, alpha_seq=1, nresize=12, mm=mm, workers=8))
+    # the table bound to qsbr (the resize worker must be online while it walks chains): lazy grow by the worker || delete + reclaim
+    J.append(conc_real("lfht_qsbr", {}, "2,0,0,0" if q else "3,0,0,0", flags=1, hmap=4, init=1, ninit=3, init_keys=0x210, prog0=prog((K_ADD, 3)),
+                       prog1=prog((K_DEL, 0), (K_LOOKUP, 1))))
+    J.append(conc_real("lfht_qsbr", {}, "1,0,0,0" if q else "2,0,0,0", hmap=0, enum=3, nenum=2, nops=1, **base))
+    J.append(conc_real("lfht_qsbr", {}, "1,0,0,0" if q else "2,0,0,0", hmap=2, init=4, prog0=prog((K_RESIZE, 1)), prog1=prog((K_DELN, 0)),
+                       prog2=prog((K_LOOKUP, 1), (K_WALKALL, 0)), final_destroy=1, **base))
     for b, env in REAL:
         J.append(conc_real(b, env, "2,0,0,0", hmap=0, enum=3, nenum=2, nops=1, **base))
         J.append(conc_real(b, env, "1,0,0,0" if q else "2,0,0,0", hmap=2, init=4, prog0=prog((K_RESIZE, 1)), prog1=prog((K_DELN, 0)),
                            prog2=prog((K_LOOKUP, 1), (K_WALKALL, 0)), final_destroy=1, **base))
+    # the components this property's guarantee is built on, on the real code (checks/cross.py)
+    J += cross.gp_core(tier)
     return J
 
 
